@@ -312,22 +312,28 @@ Qed.
 Definition stays_inside (mutate : layer -> rect -> res layer) : Prop :=
   forall L ax ay aw ah L', 0 <= aw -> 0 <= ah -> mutate L (ax, ay, aw, ah) = Ok L' -> differs L L' (ax, ay, aw, ah).
 
-Lemma area_body_sound mutate : stays_inside mutate -> forall e e', area_body mutate e = Ok e' -> edit_chain e e'.
+Lemma area_body_gen_sound areaf mutate :
+  (forall s L ax ay aw ah L', areaf s L = (ax, ay, aw, ah) -> 0 <= aw -> 0 <= ah -> mutate L (ax, ay, aw, ah) = Ok L' ->
+     differs L L' (ax, ay, aw, ah)) ->
+  forall e e', area_body_gen areaf mutate e = Ok e' -> edit_chain e e'.
 Proof.
-  intros Hm e e' H. unfold area_body in H.
+  intros Hm e e' H. unfold area_body_gen in H.
   destruct (get_cur_layer (cur e)) as [[i L]|] eqn:Ec; [|discriminate].
   destruct (get_cur_layer_some _ _ _ Ec) as [Hn _].
-  destruct (get_area (sel (cur e)) L) as [[[ax ay] aw] ah] eqn:Ea.
+  destruct (areaf (cur e) L) as [[[ax ay] aw] ah] eqn:Ea.
   destruct (from_layer L (ax, ay, aw, ah)) as [old| |] eqn:Eo; cbn [bind] in H; try discriminate.
   destruct (mutate L (ax, ay, aw, ah)) as [L'| |] eqn:Em; cbn [bind] in H; try discriminate.
   destruct (from_layer L' (ax, ay, aw, ah)) as [new| |] eqn:En; cbn [bind] in H; try discriminate.
   injection H as <-.
   destruct (from_layer_get _ _ _ _ _ _ Eo) as (_ & _ & Hw & Hh & _).
-  pose proof (Hm _ _ _ _ _ _ Hw Hh Em) as Hd.
+  pose proof (Hm _ _ _ _ _ _ _ Ea Hw Hh Em) as Hd.
   eapply plain_sound; [apply (stable_lclosed _ change_stable)|].
   exists i, ax, ay, old, new, L, L'. split; [reflexivity|]. split; [exact Hn|]. split; [apply eqv_refl|].
   split; [eapply frame_undo; eauto|eapply frame_redo; eauto].
 Qed.
+
+Lemma area_body_sound mutate : stays_inside mutate -> forall e e', area_body mutate e = Ok e' -> edit_chain e e'.
+Proof. intros Hm. unfold area_body. apply area_body_gen_sound. intros s L ax ay aw ah L' _. apply Hm. Qed.
 
 Theorem api_area_op_sound mutate : stays_inside mutate -> sound_edit (api_area_op mutate).
 Proof.
@@ -463,6 +469,43 @@ Proof.
   split; [apply clone_undo; exact Hd|apply clone_redo; exact Hd].
 Qed.
 
+(* make_layer_transparent: the frame over the whole layer *)
+Lemma api_make_layer_transparent_sound : sound_edit api_make_layer_transparent.
+Proof.
+  intros e e' H. unfold api_make_layer_transparent, guarded in H.
+  eapply with_guard_chain; eauto using eqv_refl, eqv_sym, eqv_trans.
+  intros e1 e2 Hb. cbv beta in Hb.
+  destruct (get_current_layer (cur e1)) as [i| |]; cbn [bind] in Hb; try discriminate.
+  eapply area_body_gen_sound; [|exact Hb].
+  intros s L ax ay aw ah L' Ha Hw Hh Hm. injection Ha as <- <- <- <-. unfold mut_transparent in Hm. injection Hm as <-.
+  apply fold_left_differs; [apply differs_refl|]. intros L1 x Hx HL1. apply in_zrange in Hx.
+  apply fold_left_differs; [exact HL1|]. intros L2 y Hy HL2. apply in_zrange in Hy.
+  destruct (is_transparent _); [|exact HL2]. apply set_char_step; [exact HL2|]. apply in_cells_intro; lia.
+Qed.
+
+(* the row / column wrappers: set_selection, the operation, clear_selection under one guard *)
+Lemma line_op_sound r op : sound_edit op -> sound_edit (line_op r op).
+Proof.
+  intros Hop. unfold UndoProofs.sound_edit. intros e e' H. unfold line_op, guarded in H.
+  eapply with_guard_chain; try exact eqv_refl; try exact eqv_sym; try exact eqv_trans; [|exact H].
+  intros e1 e2 Hb. cbv beta in Hb.
+  destruct (r (cur e)) as [s| |]; cbn [bind] in Hb; try discriminate.
+  destruct (api_set_selection s e1) as [e3| |] eqn:E3; cbn [bind] in Hb; try discriminate.
+  destruct (op e3) as [e4| |] eqn:E4; cbn [bind] in Hb; try discriminate.
+  eapply chain_trans; [exact (api_set_selection_sound s _ _ E3)|].
+  eapply chain_trans; [exact (Hop _ _ E4)|]. exact (api_clear_selection_sound _ _ Hb).
+Qed.
+
+Lemma line_erase_sound r : sound_edit (line_erase r).
+Proof.
+  unfold UndoProofs.sound_edit. intros e e' H. unfold line_erase, guarded in H.
+  eapply with_guard_chain; try exact eqv_refl; try exact eqv_sym; try exact eqv_trans; [|exact H].
+  intros e1 e2 Hb. cbv beta in Hb.
+  destruct (r (cur e)) as [s| |]; cbn [bind] in Hb; try discriminate.
+  destruct (api_set_selection s e1) as [e3| |] eqn:E3; cbn [bind] in Hb; try discriminate.
+  eapply chain_trans; [exact (api_set_selection_sound s _ _ E3)|]. exact (api_erase_selection_sound _ _ Hb).
+Qed.
+
 (* ------------------------------------------------------------------ histories over the modelled operations *)
 Inductive modelled : (E -> res E) -> Prop :=
 | m_set_char x y c : modelled (api_set_char x y c)
@@ -487,17 +530,38 @@ Inductive modelled : (E -> res E) -> Prop :=
 | m_flip_x ftab : modelled (api_flip_x ftab)
 | m_flip_y ftab : modelled (api_flip_y ftab)
 | m_erase_selection : modelled api_erase_selection
+| m_make_layer_transparent : modelled api_make_layer_transparent
+| m_center_line : modelled api_center_line
+| m_justify_line_left : modelled api_justify_line_left
+| m_justify_line_right : modelled api_justify_line_right
+| m_erase_row : modelled api_erase_row
+| m_erase_row_to_start : modelled api_erase_row_to_start
+| m_erase_row_to_end : modelled api_erase_row_to_end
+| m_erase_column : modelled api_erase_column
+| m_erase_column_to_start : modelled api_erase_column_to_start
+| m_erase_column_to_end : modelled api_erase_column_to_end
 | m_ctl_cur n : modelled (ctl_cur n)
 | m_ctl_mirror b : modelled (ctl_mirror b)
 | m_ctl_caret x y : modelled (ctl_caret x y).
 
 Lemma modelled_sound f : modelled f -> sound_edit f.
 Proof.
-  destruct 1; auto using api_set_char_sound, api_swap_char_sound, api_resize_buffer_sound, api_add_new_layer_sound,
+  destruct 1;
+  try solve [auto using api_set_char_sound, api_swap_char_sound, api_resize_buffer_sound, api_add_new_layer_sound,
     api_remove_layer_sound, api_raise_layer_sound, api_lower_layer_sound, api_duplicate_layer_sound, api_clear_layer_sound,
     api_toggle_layer_visibility_sound, api_move_layer_sound, api_set_layer_size_sound, api_set_selection_sound,
     api_clear_selection_sound, api_deselect_sound, api_area_op_sound, api_justify_left_sound, api_justify_right_sound,
-    api_center_sound, api_flip_x_sound, api_flip_y_sound, api_erase_selection_sound, ctl_cur_sound, ctl_mirror_sound, ctl_caret_sound.
+    api_center_sound, api_flip_x_sound, api_flip_y_sound, api_erase_selection_sound, ctl_cur_sound, ctl_mirror_sound, ctl_caret_sound,
+    api_make_layer_transparent_sound].
+  - apply (line_op_sound row_sel api_center). apply api_center_sound.
+  - apply (line_op_sound row_sel api_justify_left). apply api_justify_left_sound.
+  - apply (line_op_sound row_sel api_justify_right). apply api_justify_right_sound.
+  - apply (line_erase_sound row_sel).
+  - unfold api_erase_row_to_start. apply line_erase_sound.
+  - unfold api_erase_row_to_end. apply line_erase_sound.
+  - unfold api_erase_column. apply line_erase_sound.
+  - unfold api_erase_column_to_start. apply line_erase_sound.
+  - unfold api_erase_column_to_end. apply line_erase_sound.
 Qed.
 
 Theorem undo_redo_history_proof : forall (fs : list (E -> res E)) e0 en d,
